@@ -28,6 +28,18 @@
 // order).  Reserved = names starting with ':' and content-type, te, user-agent,
 // grpc-status, grpc-message, grpc-encoding, grpc-timeout, grpc-message-type.
 //
+// Picker metadata (e2e): the channel uses a registered test LB policy (pick_first
+// wrapped so that its pickers add balancer.PickResult.Metadata chosen by the plan:
+// nothing, an empty non-nil MD, or 1-4 keys - unique ones, keys colliding with the
+// user's keys, -bin values, reserved names with markers).  The handler must then
+// observe the user's multimap PLUS the picker's non-reserved pairs.  balancer.PickResult
+// documents only that the metadata "will be merged with existing metadata added by
+// the client application" - no order for colliding keys - so for a colliding key
+// both "user values, then picker values" (what ships) and "picker values, then user
+// values" are accepted; each block keeps its own order.  Reserved names from the
+// picker are judged like user-supplied ones, except ":authority", which gRFC A81
+// defines as the per-pick authority override and is therefore not injected.
+//
 // R2 notes (weakest readings that still catch real breaks):
 //   - the transport surfaces its own values for :authority, user-agent, content-type
 //     and grpc-accept-encoding (server side) / content-type (client side); those keys
@@ -58,6 +70,8 @@ import (
 	"golang.org/x/net/http2"
 	"golang.org/x/net/http2/hpack"
 	"google.golang.org/grpc"
+	"google.golang.org/grpc/balancer"
+	"google.golang.org/grpc/balancer/pickfirst"
 	"google.golang.org/grpc/codes"
 	"google.golang.org/grpc/credentials/insecure"
 	"google.golang.org/grpc/grpclog"
@@ -257,8 +271,14 @@ type rpcPlan struct {
 	Appends [][]kv   `json:"appends,omitempty"`
 	Ops     []srvOp  `json:"ops,omitempty"`
 	Fail    bool     `json:"fail"`
+	Pick    pickDef  `json:"pick"`              // e2e: what the LB picker adds to the pick
 	Invalid string   `json:"invalid,omitempty"` // family invalid: kind of defect ("" = valid RPC)
 	Resp    respPlan `json:"resp,omitempty"`    // family to-client
+}
+
+type pickDef struct {
+	Mode string `json:"mode,omitempty"` // "" / none | empty | md
+	MD   []kv   `json:"md,omitempty"`
 }
 
 type respPlan struct {
@@ -314,8 +334,98 @@ func genE2E(rng *rand.Rand, idx int, mk *markers) rpcPlan {
 		p.Ops = append(p.Ops, srvOp{Op: "set-trailer", MD: genPairs(rng, mk, 4, reservedNames, 35, false)})
 	}
 	p.Fail = rng.Intn(3) == 0
+	// what the LB picker adds (drawn last so that the rest of the plan does not depend on it)
+	switch (idx + rng.Intn(3)) % 5 {
+	case 0, 1:
+		p.Pick.Mode = "none"
+	case 2:
+		p.Pick.Mode = "empty"
+	default:
+		p.Pick.Mode = "md"
+		p.Pick.MD = genPairs(rng, mk, 3, pickerReserved, 35, false)
+		// keys that collide with the user's keys
+		var userKeys []string
+		for _, x := range p.Base {
+			userKeys = append(userKeys, asciiLower(x.K))
+		}
+		for _, a := range p.Appends {
+			for _, x := range a {
+				userKeys = append(userKeys, asciiLower(x.K))
+			}
+		}
+		for n := rng.Intn(3); n > 0 && len(userKeys) > 0; n-- {
+			k := userKeys[rng.Intn(len(userKeys))]
+			if isReservedRef(k) {
+				continue
+			}
+			for nv := 1 + rng.Intn(2); nv > 0; nv-- {
+				p.Pick.MD = append(p.Pick.MD, kv{K: k, V: genValue(rng, strings.HasSuffix(k, "-bin"))})
+			}
+		}
+		if len(p.Pick.MD) == 0 {
+			p.Pick.MD = []kv{{K: "x-lb", V: []byte("picked")}}
+		}
+	}
 	return p
 }
+
+// pickerReserved: reserved names a picker may try to inject (":authority" is the
+// gRFC A81 authority override, a documented feature, and is left out).
+var pickerReserved = []string{":path", ":foo", ":method", ":scheme", ":status", "content-type", "te", "user-agent",
+	"grpc-status", "grpc-message", "grpc-encoding", "grpc-timeout", "grpc-message-type"}
+
+// ---------- the test LB policy ----------
+
+const lbName = "verif_c09_pick_metadata"
+
+type lbBuilder struct{}
+
+func (lbBuilder) Name() string { return lbName }
+func (lbBuilder) Build(cc balancer.ClientConn, opts balancer.BuildOptions) balancer.Balancer {
+	return balancer.Get(pickfirst.Name).Build(&lbCC{ClientConn: cc}, opts)
+}
+
+type lbCC struct{ balancer.ClientConn }
+
+func (c *lbCC) UpdateState(s balancer.State) {
+	s.Picker = &mdPicker{p: s.Picker}
+	c.ClientConn.UpdateState(s)
+}
+
+type pickKey struct{}
+
+// pickState travels in the application's context; the picker reads the plan
+// from it and counts the successful picks.
+type pickState struct {
+	def   pickDef
+	mu    sync.Mutex
+	picks int
+}
+
+type mdPicker struct{ p balancer.Picker }
+
+func (p *mdPicker) Pick(info balancer.PickInfo) (balancer.PickResult, error) {
+	res, err := p.p.Pick(info)
+	if err != nil {
+		return res, err
+	}
+	ps, _ := info.Ctx.Value(pickKey{}).(*pickState)
+	if ps == nil {
+		return res, nil
+	}
+	ps.mu.Lock()
+	ps.picks++
+	ps.mu.Unlock()
+	switch ps.def.Mode {
+	case "empty":
+		res.Metadata = metadata.MD{}
+	case "md":
+		res.Metadata = toMD(ps.def.MD) // a fresh MD per pick
+	}
+	return res, nil
+}
+
+func init() { balancer.Register(lbBuilder{}) }
 
 // ---------- tap ----------
 
@@ -440,8 +550,19 @@ func clip(s string) string {
 
 // compareMD judges got (as handed to the application) against the reference.
 // own = keys the transport may add by itself.
-func compareMD(res *result, what string, got metadata.MD, want mm, own map[string]bool, mk *markers) bool {
+func compareMD(res *result, what string, got metadata.MD, want mm, own map[string]bool, mk *markers, alts ...mm) bool {
 	ok := true
+	eq := func(a, b []string) bool {
+		if len(a) != len(b) {
+			return false
+		}
+		for i := range a {
+			if a[i] != b[i] {
+				return false
+			}
+		}
+		return true
+	}
 	for k, vs := range got {
 		for _, v := range vs {
 			for _, m := range mk.list {
@@ -461,6 +582,15 @@ func compareMD(res *result, what string, got metadata.MD, want mm, own map[strin
 	}
 	for k, ws := range want {
 		gs := got[k]
+		altOK := false
+		for _, alt := range alts {
+			if as, has := alt[k]; has && eq(gs, as) {
+				altOK = true // the other documented-as-acceptable order of a merged key
+			}
+		}
+		if altOK {
+			continue
+		}
 		if len(gs) != len(ws) {
 			ok = false
 			res.v("values-lost-or-added", "%s: key %q has %d values, want %d (got %s)", what, k, len(gs), len(ws), clip(strings.Join(gs, "|")))
@@ -642,10 +772,18 @@ func newServer(plans []rpcPlan) *server {
 
 // ---------- client side helpers ----------
 
+// buildCtx attaches the plan's metadata.  The request id travels in the base MD
+// when there is one and as an appended pair otherwise, so that the loss of either
+// part is reported for what it is and not as an unattributable handler run.
 func buildCtx(i int, p rpcPlan) context.Context {
 	ctx := context.Background()
 	if p.HasBase {
-		ctx = metadata.NewOutgoingContext(ctx, toMD(p.Base))
+		md := toMD(p.Base)
+		if md == nil {
+			md = metadata.MD{}
+		}
+		md["x-rid"] = []string{strconv.Itoa(i)}
+		ctx = metadata.NewOutgoingContext(ctx, md)
 	}
 	for _, a := range p.Appends {
 		var flat []string
@@ -654,7 +792,10 @@ func buildCtx(i int, p rpcPlan) context.Context {
 		}
 		ctx = metadata.AppendToOutgoingContext(ctx, flat...)
 	}
-	return metadata.AppendToOutgoingContext(ctx, "X-Rid", strconv.Itoa(i))
+	if !p.HasBase {
+		ctx = metadata.AppendToOutgoingContext(ctx, "X-Rid", strconv.Itoa(i))
+	}
+	return ctx
 }
 
 type clientObs struct {
@@ -762,6 +903,7 @@ func runE2E(plans []rpcPlan, mk *markers) *result {
 		grpc.WithTransportCredentials(insecure.NewCredentials()),
 		grpc.WithContextDialer(func(context.Context, string) (net.Conn, error) { return lis.dial(cp) }),
 		grpc.WithDefaultCallOptions(grpc.ForceCodec(wire.RawCodec{})),
+		grpc.WithDefaultServiceConfig(`{"loadBalancingConfig": [{"`+lbName+`":{}}]}`),
 		grpc.WithMaxHeaderListSize(16<<20))
 	if err != nil {
 		res.v("harness", "NewClient: %v", err)
@@ -769,7 +911,11 @@ func runE2E(plans []rpcPlan, mk *markers) *result {
 	}
 	for i, p := range plans {
 		pre := fmt.Sprintf("e2e rpc %d (%s)", i, p.Kind)
-		o := call(cc, buildCtx(i, p), p.Kind)
+		ps := &pickState{def: p.Pick}
+		o := call(cc, context.WithValue(buildCtx(i, p), pickKey{}, ps), p.Kind)
+		ps.mu.Lock()
+		npicks := ps.picks
+		ps.mu.Unlock()
 		srv.mu.Lock()
 		so := srv.obs[i]
 		srv.mu.Unlock()
@@ -789,9 +935,36 @@ func runE2E(plans []rpcPlan, mk *markers) *result {
 		for _, a := range p.Appends {
 			all = append(all, a...)
 		}
-		okS := compareMD(res, pre+" server FromIncomingContext", so.incoming, expectedIncoming(i, p), serverOwn, mk)
+		// the user's multimap plus the picker's non-reserved pairs; for a key both supplied, either
+		// block may come first (undocumented), each block in its own order
+		want, alt, pk := expectedIncoming(i, p), mm{}, mm{}
+		pk.add(p.Pick.MD)
+		collide := false
+		for k, vs := range pk {
+			if len(want[k]) > 0 {
+				collide = true
+				alt[k] = append(append([]string{}, vs...), want[k]...)
+			}
+			want[k] = append(want[k], vs...)
+		}
+		if npicks == 0 {
+			res.v("harness", "%s: the test LB policy's picker was never consulted", pre)
+		}
+		okS := compareMD(res, pre+" server FromIncomingContext (picker: "+p.Pick.Mode+")", so.incoming, want, serverOwn, mk, alt)
 		if okS {
 			res.counters["incoming_md_identical"]++
+			switch p.Pick.Mode {
+			case "md":
+				res.counters["picker_md_merged_and_user_md_intact"]++
+				if collide {
+					res.counters["picker_md_colliding_with_user_keys"]++
+				}
+				if len(p.Appends) > 0 {
+					res.counters["picker_md_with_appended_user_pairs"]++
+				}
+			case "empty":
+				res.counters["picker_empty_md_and_user_md_intact"]++
+			}
 		}
 		// what the handler set
 		wantH, wantT := mm{}, mm{}
@@ -825,8 +998,9 @@ func runE2E(plans []rpcPlan, mk *markers) *result {
 		for _, op := range p.Ops {
 			srvAll = append(srvAll, op.MD...)
 		}
-		res.sigs = append(res.sigs, fmt.Sprintf("e2e/%s/base=%v/appends=%d/req:%s/resp:%s/fail=%v",
+		res.sigs = append(res.sigs, fmt.Sprintf("e2e/%s/base=%v/appends=%d/pick=%s/req:%s/resp:%s/fail=%v",
 			p.Kind, p.HasBase, len(p.Appends),
+			p.Pick.Mode+flags([]string{":bin", ":collide", ":rsv"}, hasBin(p.Pick.MD), collide, hasReserved(p.Pick.MD)),
 			flags([]string{"bin", "rep", "rsv", "mixed"}, hasBin(all), hasRepeat(all), hasReserved(all), hasUpper(all)),
 			flags([]string{"bin", "rep", "rsv", "hdr", "trl", "inv"}, hasBin(srvAll), hasRepeat(srvAll), hasReserved(srvAll), len(wantH) > 0, len(wantT) > 0, invalidOps > 0), p.Fail))
 	}
@@ -1220,6 +1394,9 @@ func describe(p rpcPlan) map[string]any {
 	for i, op := range p.Ops {
 		d[fmt.Sprintf("op%d_%s", i, op.Op)] = short(op.MD)
 	}
+	if p.Pick.Mode != "" {
+		d["picker_mode"], d["picker_md"] = p.Pick.Mode, short(p.Pick.MD)
+	}
 	if p.Invalid != "" {
 		d["invalid"] = p.Invalid
 	}
@@ -1301,11 +1478,12 @@ func TestVerifC09(t *testing.T) {
 	runFam(t, r, "to-client", r.N(100, 2000)/light(), 6)
 	r.Finish(vlib.Spec{
 		Level: "exploration",
-		Rule: "keys over [0-9a-z-_.] (pool + random, a third -bin), values: printable ASCII incl. empty / leading-trailing spaces / 3 KB, -bin: random bytes of 0..1000 (rarely 20000) bytes, 1-4 values per key, shuffled; reserved names (pseudo-headers, content-type, te, user-agent, grpc-status/-message/-encoding/-timeout/-message-type) injected with unique marker values; e2e: base MD and 0-3 AppendToOutgoingContext calls with mixed-case keys, handlers with 0-2 SetHeader, optional SendHeader / message, 0-3 SetTrailer, OK or error, unary (grpc.SetHeader...) and stream API: handler's incoming MD, client's Header()/Trailer() == reference multimap (per-key order), no marker surfaced or on the tapped wire, wire names lower-case, -bin wire values base64; invalid: 11 kinds of invalid metadata => INTERNAL and no HEADERS read by the scripted server; to-server / to-client: hand-built blocks with padded and unpadded base64; every RPC judged; distinct = (family, kind, API path / shape, ingredient flags)",
+		Rule: "keys over [0-9a-z-_.] (pool + random, a third -bin), values: printable ASCII incl. empty / leading-trailing spaces / 3 KB, -bin: random bytes of 0..1000 (rarely 20000) bytes, 1-4 values per key, shuffled; reserved names (pseudo-headers, content-type, te, user-agent, grpc-status/-message/-encoding/-timeout/-message-type) injected with unique marker values; e2e: base MD and 0-3 AppendToOutgoingContext calls with mixed-case keys, a registered test LB policy (wrapped pick_first) whose picker adds PickResult.Metadata for ~60% of the picks (empty non-nil MD, or 1-4 keys: unique, colliding with user keys, -bin, reserved names with markers; handler must see user multimap + picker pairs, colliding key: user-then-picker or picker-then-user), handlers with 0-2 SetHeader, optional SendHeader / message, 0-3 SetTrailer, OK or error, unary (grpc.SetHeader...) and stream API: handler's incoming MD, client's Header()/Trailer() == reference multimap (per-key order), no marker surfaced or on the tapped wire, wire names lower-case, -bin wire values base64; invalid: 11 kinds of invalid metadata => INTERNAL and no HEADERS read by the scripted server; to-server / to-client: hand-built blocks with padded and unpadded base64; every RPC judged; distinct = (family, kind, API path / shape, ingredient flags)",
 		Assumptions: []string{
 			"the transport's own :authority, user-agent, content-type and grpc-accept-encoding may be surfaced (never with a user marker)",
 			"user keys avoid host, connection and non-reserved grpc-* names; hand-built peer blocks avoid unknown pseudo-headers (the HTTP/2 layer rejects them)",
 			"server-side invalid metadata is exercised through ServerStream.SetHeader/SendHeader only (grpc.SetHeader(ctx) does not validate by design)",
+			"balancer.PickResult.Metadata is documented as 'merged' without an order for keys the application also set: both block orders are accepted; ':authority' from a picker is the gRFC A81 authority override and is not injected",
 		},
 		Floor: 60,
 	})
